@@ -421,6 +421,12 @@ def base_case(rng, tier, alg, n=None):
     elif alg == "hosvd":
         c["tol"] = rng.choice([0.05, 0.2, 0.5])
         c["sequential"] = rng.random() < 0.6
+        if rng.random() < 0.5:
+            # every option crossed with every presentation (seed C18w: ranks given by the caller x verbosity): given and
+            # mixed ranks (0 = chosen automatically for that mode), differing per mode, mostly below what tol would choose
+            c["hranks"] = [rng.choice([0, 1, 1, max(1, e // 2), e]) for e in c["shape"]]
+            if all(r == 0 for r in c["hranks"]):
+                c["hranks"][0] = 1
     else:
         c["maxiters"] = rng.choice([3, 5])
     return c
@@ -640,6 +646,16 @@ class Print(Family):
                         c2 = dict(c)
                         c2["rep"] = "dense" if c["rep"] == "sparse" else "sparse"
                         out.append(c2)
+                    if alg == "hosvd":
+                        # both ways of choosing the ranks, always: by tolerance, and given by the caller (all modes / mixed
+                        # with automatic ones), below what the tolerance would choose - sequential and not
+                        for hr in ([1 if e > 1 else e for e in c["shape"]], [0] + [max(1, e // 2) for e in c["shape"][1:]]):
+                            for seq in (True, False):
+                                c3 = dict(c)
+                                c3.pop("hranks", None)
+                                c3.update({"hranks": list(hr), "sequential": seq, "tol": 1e-3})
+                                out.append(c3)
+                        c.pop("hranks", None)
         return out
 
     def evaluate(self, cases):
